@@ -30,7 +30,7 @@ ASSUMPTIONS = [
     "parallel path: only the thread-pool scheduler shares one generator between tasks; the process-pool stub gives every task a private generator",
 ]
 COMPONENTS = {"real": ["pyxel.util.set_random_seed", "pyxel stochastic models", "exposure / observation paths", "dask get_async", "numpy legacy RNG"], "stub": ["thread pool", "numpy.random module functions wrapped as yield points", "pulse_processing.convert_to_phase (minutes-long physics replaced by a constant frame)"]}
-BUDGET = {"quick": {"n": 320, "wall": 110, "determinism": 4}, "thorough": {"n": 8000, "wall": 1600, "determinism": 12}}
+BUDGET = {"quick": {"n": 320, "wall": 110, "determinism": 4}, "thorough": {"n": 20000, "wall": 1600, "determinism": 12}}
 REQUIRED_REACH = ["pipeline_with_unseedable_model", "model:multiplication_register", "model:multiplication_register_cic", "model:sar_adc_with_noise", "model:cosmix", "model:nghxrg", "model:charge_deposition", "model:charge_deposition_in_mct", "model:conversion_with_qe_map", "kind:calibration", "prior_with_cached_gaussian", "kind:noseed-model", "kind:model", "kind:pipeline", "kind:own-seeds", "kind:failing", "path:exposure", "path:obs-seq", "path:obs-par", "seed_lock_contended", "state_checked_after_error"]
 
 GROUPS = ["scene_generation", "photon_collection", "phasing", "charge_generation", "charge_collection", "charge_transfer", "charge_measurement", "signal_transfer", "readout_electronics", "data_processing"]
